@@ -71,53 +71,45 @@ theorem mem_kill_monotone (f : Frame) (ms : List MemOp) (M M' : BitVec 64) (hl :
   · exact mem_monotone_aux ms M M' hl hs ht hM' hM (limLe_le hle hM) hnk hk
 
 /-- **A bracket without a memory limit of its own cannot absorb a memory termination**: for every
-well-formed body, if the body is terminated for memory and the enclosing context is memory-limited,
-the enclosing context is terminated as well and nothing runs in between (commit 0426709) —
-PROVIDED the body did not release memory of the enclosing context (`hund`: the frame below the
-bracket still accounts for what it accounted for at the call).  Without that proviso the statement
-is false of the current code: `stale_limit_absorbs_counterexample`. -/
+well-formed body — including bodies that release memory of the enclosing contexts (8007e69) — if
+the body is terminated for memory and the enclosing context is memory-limited, the enclosing
+context is terminated as well and nothing runs in between (52f8e49: the bracket is flagged as
+inheriting when it is pushed, and the flag never changes). -/
 theorem limitless_bracket_cannot_absorb_mem (a : Acc) (d : CtxDef) (body : List Item) (hw : wfBody body = true)
     (hi : Inv a.st) (hl : a.st.cur.live = true) (hd : d.hard.Memory = 0#64) (hL : a.st.cur.hard.Memory ≠ 0#64)
-    (hk : (runBody { a with st := push a.st d } body).2 = .killed .mem)
-    (hund : ∀ p' ps', (runBody { a with st := push a.st d } body).1.st.parents = p' :: ps' →
-      p'.used.Memory = a.st.cur.used.Memory) :
+    (hk : (runBody { a with st := push a.st d } body).2 = .killed .mem) :
     (runItem a (.call d body)).2 = .killed .mem ∧
     (runItem a (.call d body)).1.st.cur.status = StatusKilled ∧
     LowerL (runItem a (.call d body)).1.st.parents a.st.parents ∧
     (runItem a (.call d body)).1.events = (runBody { a with st := push a.st d } body).1.events ∧
     (runItem a (.call d body)).1.results = (runBody { a with st := push a.st d } body).1.results :=
-  limitless_bracket_propagates_mem a d body hw hi hl hd hL hk hund
+  limitless_bracket_propagates_mem a d body hw hi hl hd hL hk
 
-/-- **monotone in M through any nesting of limit-less brackets**, for programs whose brackets
-release only memory they have themselves required (`bodyLocalRel`: each bracket's own running
-balance never negative; amounts cannot wrap): run such a program in two stacks whose active
-contexts differ only in their hard memory limit (`RelS δ`: the first has `δ` bytes more).  If the
-run under the smaller limit is not terminated, the run under the larger limit ends in exactly the
-same way and the contexts are again related — so killed under `M` ⇒ killed under every `M' ≤ M`.
-For programs that release across brackets this is false of the current code:
-`mem_kill_monotone_nested_counterexample`. -/
-theorem mem_kill_monotone_nested (δ B b : Nat) (a a' : Acc) (body : List Item) (hw : bodyPcallMem body = true)
-    (hlr : bodyLocalRel B b body)
+/-- **monotone in M through any nesting of limit-less brackets**: take ANY program made of memory
+requests, releases (also releases of memory required further out, which cascade) and pcall-like
+brackets, and run it in two stacks that differ only in their hard memory limits (`RelS δ`: every
+memory-limited context of the first has `δ` bytes more, down to the first context without memory
+limit, from where the stacks are identical).  If the run under the smaller limits is not terminated,
+the run under the larger limits ends in exactly the same way (same exit: done, error or the same
+foreign panic) and the stacks are again related — so a program killed under `M` is killed under
+every `M' ≤ M`. -/
+theorem mem_kill_monotone_nested (δ : Nat) (a a' : Acc) (body : List Item) (hw : bodyPcallMem body = true)
     (hr : RelS δ a.st a'.st) (hi : Inv a.st) (hi' : Inv a'.st) (hl' : a'.st.cur.live = true)
-    (hs' : a'.st.cur.hardStopped = false) (hB : a.st.cur.hard.Memory.toNat ≤ B)
-    (hb : b ≤ a'.st.cur.used.Memory.toNat)
+    (hs' : a'.st.cur.hardStopped = false)
     (hk : ∃ res, (runBody a body).2 = .killed res) : ∃ res, (runBody a' body).2 = .killed res := by
   apply Classical.byContradiction
   intro hn
   have hnk : NotKilled (runBody a' body).2 := fun res h => hn ⟨res, h⟩
-  obtain ⟨he, _⟩ := sim_body δ B b a a' body hw hlr hr hi hi' hl' hs' hB hb hnk
+  obtain ⟨he, _⟩ := sim_body δ a a' body hw hr hi hi' hl' hs' hnk
   obtain ⟨res, hres⟩ := hk
   rw [he] at hres
   exact hnk res hres
 
-/-- in such a program every termination is a memory termination, at any depth, and no release
-reaches a frame below the bracket that issued it -/
-theorem mem_program_killed_by_memory (B b : Nat) (a : Acc) (body : List Item) (hw : bodyPcallMem body = true)
-    (hlr : bodyLocalRel B b body) (hi : Inv a.st)
-    (hl : a.st.cur.live = true) (hs : a.st.cur.hardStopped = false) (h0 : a.st.cur.hard.Memory ≠ 0#64)
-    (hB : a.st.cur.hard.Memory.toNat ≤ B) (hb : b ≤ a.st.cur.used.Memory.toNat) :
-    (∀ res, (runBody a body).2 = .killed res → res = .mem) ∧ (runBody a body).1.st.parents = a.st.parents :=
-  ⟨(memrun_body B b a body hw hlr hi hl hs h0 hB hb).cause, (memrun_body B b a body hw hlr hi hl hs h0 hB hb).parents⟩
+/-- in a memory program every termination is a memory termination, at any depth -/
+theorem mem_program_killed_by_memory (a : Acc) (body : List Item) (hw : bodyPcallMem body = true) (hi : Inv a.st)
+    (hl : a.st.cur.live = true) (hs : a.st.cur.hardStopped = false) (h0 : a.st.cur.hard.Memory ≠ 0#64) :
+    ∀ res, (runBody a body).2 = .killed res → res = .mem :=
+  (memrun_body a body hw hi hl hs h0).cause
 
 /-- **no underflow inside a frame**: a context that releases only what it has itself required
 (running balance never negative), with amounts that cannot wrap the counter, never raises
@@ -210,31 +202,20 @@ example : (step ⟨limitedRoot.child CtxDef.none, [limitedRoot]⟩ (.relMem 11#6
     (step ⟨limitedRoot.child CtxDef.none, [limitedRoot]⟩ (.relMem 10#64)).1.parents.map (fun f => f.used.Memory) = [0#64] := by
   decide +kernel
 
-def staleDef : CtxDef := ⟨⟨0#64, 700#64, 0#64⟩, Res.zero, 0#16⟩
 /-- parent requires 600; the pcall bracket releases 500 of them (cascade) and then asks for 150 -/
 def staleProg (M : BitVec 64) : Item :=
   .call ⟨⟨0#64, M, 0#64⟩, Res.zero, 0#16⟩
     [.op (.reqMem 600#64), .call CtxDef.none [.op (.relMem 500#64), .op (.reqMem 150#64)], .op (.reqMem 520#64)]
 
-/-- **the interplay of 8007e69 with 0426709 reopens a hole**: the bracket's limit was "all the
-parent had left" when it was pushed (100 under M = 700); after the bracket has released 500 bytes
-of the parent the parent has 600 left, but the bracket's limit is still 100: its request of 150 is
-refused, and since `100 ≠ 700 − 100` the equality test of propagateTermination fails — the
-termination is absorbed, the program sees it and goes on (`done`).  Under the larger limit 760
-nothing is refused in the bracket and the program is killed later: killed is not monotone in M.
-Replayed on the real interpreter by probe `stale-limit` of checks/c06.py (a coroutine created in
-the parent and finished inside pcall, then a string.rep). -/
-theorem stale_limit_absorbs_counterexample :
+/-- the witness of the former `stale_limit_absorbs_counterexample` (finding C06-STALE-INHERITED-LIMIT,
+repaired by 52f8e49): under M = 700 the bracket's request is refused by its inherited limit and the
+termination now reaches the limited context although the bracket had released memory of it; under
+760 the program is killed later — killed under both, as monotonicity demands -/
+example :
     (exec St.init (staleProg 700#64)).1.results.reverse.map (fun r => (r.depth, r.status, r.exit)) =
-      [(2, StatusKilled, .killed .mem), (1, StatusDone, .done)] ∧
+      [(1, StatusKilled, .killed .mem)] ∧
     (exec St.init (staleProg 760#64)).1.results.reverse.map (fun r => (r.depth, r.status, r.exit)) =
       [(2, StatusDone, .done), (1, StatusKilled, .killed .mem)] := by decide +kernel
-
-/-- the same pair as a failure of monotonicity: done under 700, killed under 760 -/
-theorem mem_kill_monotone_nested_counterexample :
-    (∃ r ∈ (exec St.init (staleProg 760#64)).1.results, r.depth = 1 ∧ r.status = StatusKilled) ∧
-    (∃ r ∈ (exec St.init (staleProg 700#64)).1.results, r.depth = 1 ∧ r.status = StatusDone) := by
-  decide +kernel
 
 /-! ### the compile pipeline of runtime/lib.go (hand model of its accounting) -/
 
@@ -301,15 +282,21 @@ def memProg : List Item :=
 two-deep pcall nest whose brackets release only their own memory; it survives under 4000 and is killed (at
 depth 3, propagated to the top) under 1000 -/
 example : RelS 3000 (memLimited 4000#64) (memLimited 1000#64) :=
-  ⟨by decide, by decide, by decide, by decide, by decide, by decide, by decide, by decide, by decide, by decide,
-   by decide, by decide⟩
+  ⟨⟨by decide, by decide, by decide, by decide, by decide, by decide, by decide, by decide, by decide, by decide,
+    by decide, by decide⟩, .absorb _ _ rfl⟩
 
-example : bodyLocalRel 4000 0 memProg := by
-  simp [memProg, bodyLocalRel, Item.localRel, Item.bal]
+/-- a program that releases across brackets: the inner bracket gives back 250 of the 600 bytes its
+grandparent required -/
+def memProg2 : List Item :=
+  [.op (.reqMem 600#64), .call CtxDef.none [.op (.reqMem 300#64), .call CtxDef.none [.op (.relMem 550#64), .op (.reqMem 200#64)]],
+   .op (.reqMem 100#64)]
 
-example : bodyPcallMem memProg = true ∧
+example : bodyPcallMem memProg = true ∧ bodyPcallMem memProg2 = true ∧
     (runBody (Acc.start (memLimited 4000#64)) memProg).2 = .done ∧
     (runBody (Acc.start (memLimited 1000#64)) memProg).2 = .killed .mem ∧
-    (runBody (Acc.start (memLimited 1000#64)) memProg).1.st.cur.status = StatusKilled := by decide +kernel
+    (runBody (Acc.start (memLimited 1000#64)) memProg).1.st.cur.status = StatusKilled ∧
+    (runBody (Acc.start (memLimited 4000#64)) memProg2).2 = .done ∧
+    (runBody (Acc.start (memLimited 4000#64)) memProg2).1.st.cur.used.Memory = 650#64 ∧
+    (runBody (Acc.start (memLimited 500#64)) memProg2).2 = .killed .mem := by decide +kernel
 
 end GoluaVerif.Props.C06
